@@ -36,4 +36,11 @@ struct TeakraVerifAccess {
     static Teakra::ICU::IrqBits& IcuRequest(Teakra::ICU& i) { return i.request; }
     static std::array<Teakra::ICU::IrqBits, 3>& IcuEnabled(Teakra::ICU& i) { return i.enabled; }
     static Teakra::ICU::IrqBits& IcuVectoredEnabled(Teakra::ICU& i) { return i.vectored_enabled; }
+    static std::function<void(u32)>& IcuOnInterrupt(Teakra::ICU& i) { return i.on_interrupt; }
+    static std::function<void(u32, bool)>& IcuOnVectored(Teakra::ICU& i) { return i.on_vectored_interrupt; }
+    // Interpreter interrupt latches (written by Processor::SignalInterrupt / SignalVectoredInterrupt)
+    static std::array<std::atomic<bool>, 3>& IntPending(Teakra::Interpreter& i) { return i.interrupt_pending; }
+    static std::atomic<bool>& VintPending(Teakra::Interpreter& i) { return i.vinterrupt_pending; }
+    static std::atomic<bool>& VintContext(Teakra::Interpreter& i) { return i.vinterrupt_context_switch; }
+    static std::atomic<u32>& VintAddress(Teakra::Interpreter& i) { return i.vinterrupt_address; }
 };
